@@ -53,7 +53,7 @@ static const char* FIO_determineCompressedName(const char* srcFileName, const ch
 static void UTIL_mirrorSourceFilesDirectories_stub(void) {}
 #define UTIL_mirrorSourceFilesDirectories(a,b,c) UTIL_mirrorSourceFilesDirectories_stub()
 #define UTIL_createMirroredDestDirName(a,b) ((char*)NULL)
-static int FIO_checkFilenameCollisions(const char** filenameTable, unsigned nbFiles) { (void)filenameTable; (void)nbFiles; return 0; }
+int FIO_checkFilenameCollisions(const char** filenameTable, unsigned nbFiles) { (void)filenameTable; (void)nbFiles; return 0; }
 static int FIO_shouldDisplayMultipleFileSummary(FIO_ctx_t const* fCtx) { (void)fCtx; return 0; }
 #undef DISPLAY_PROGRESS
 #define DISPLAY_PROGRESS(...) ((void)0)
